@@ -66,14 +66,29 @@ def translate():
     if not (isinstance(tc, ast.Call) and t2.src(tc.func) == 'Thread'):
         raise TranslateError('Thread(...): ' + t2.src(tc))
     kw = {k.arg: t2.src(k.value) for k in tc.keywords}
-    if kw != {'target': 'self._threaded_kernel', 'args': '(data, ix, ubasis.basis, vbasis.basis, wdict, dx)'} or tc.args:
+    if tc.args or kw.get('target') != 'self._threaded_kernel' or set(kw) != {'target', 'args'}:
+        raise TranslateError('Thread arguments: ' + t2.src(tc))
+    if kw['args'] == '(data, ix, ubasis.basis, vbasis.basis, wdict, dx)':
+        passes_errors = False
+    elif kw['args'] == '(data, ix, ubasis.basis, vbasis.basis, wdict, dx, errors)':
+        passes_errors = True
+    else:
         raise TranslateError('Thread arguments: ' + t2.src(tc))
     # all started, then all joined, and flatten only after the branch
     loops = [s for s in thr.body if isinstance(s, ast.For)]
     if [t2.src(l) for l in loops] != ['for t in threads:\n    t.start()', 'for t in threads:\n    t.join()']:
         raise TranslateError('start/join loops: ' + repr([t2.src(l) for l in loops]))
-    if len(thr.body) != 4:
-        raise TranslateError('unexpected statements in threaded branch')
+    # optional error propagation:  errors: List[Exception] = []  ...  if len(errors) > 0: raise errors[0]
+    rest = [st for st in thr.body if st not in (ind, th) and st not in loops]
+    reraise = False
+    if rest:
+        if not (len(rest) == 2 and isinstance(rest[0], (ast.AnnAssign, ast.Assign)) and t2.src(rest[0]).replace(': List[Exception]', '') == 'errors = []'
+                and t2.src(rest[1]) == 'if len(errors) > 0:\n    raise errors[0]'
+                and thr.body.index(rest[0]) < thr.body.index(th) and thr.body.index(rest[1]) > thr.body.index(loops[1])):
+            raise TranslateError('unexpected statements in threaded branch: ' + repr([t2.src(x) for x in rest]))
+        reraise = True
+    if reraise != passes_errors:
+        raise TranslateError('error list is created/re-raised but not passed to the workers (or vice versa)')
     pos_thr = asm.body.index(thr)
     flat = [k for k, s in enumerate(asm.body) if isinstance(s, ast.Assign) and t2.src(s) == "data = data.flatten('C')"]
     if len(flat) != 1 or flat[0] < pos_thr:
@@ -81,9 +96,22 @@ def translate():
 
     # --- worker body
     params = [x.arg for x in tk.args.args]
-    if params != ['self', 'data', 'ix', 'ubasis', 'vbasis', 'wdict', 'dx']:
+    if params not in (['self', 'data', 'ix', 'ubasis', 'vbasis', 'wdict', 'dx'],
+                      ['self', 'data', 'ix', 'ubasis', 'vbasis', 'wdict', 'dx', 'errors']):
         raise TranslateError('_threaded_kernel signature: ' + repr(params))
     body = [s for s in tk.body if not (isinstance(s, ast.Expr) and isinstance(s.value, ast.Constant))]
+    catches = False
+    if len(body) == 1 and isinstance(body[0], ast.Try):
+        tr = body[0]
+        h = t2.only(tr.handlers, 'except clauses')
+        if (tr.orelse or tr.finalbody or t2.src(h.type) != 'Exception' or h.name is None
+                or [t2.src(x) for x in h.body] != ['if errors is None:\n    raise', f'errors.append({h.name})']
+                or 'errors' not in params):
+            raise TranslateError('_threaded_kernel try/except: ' + t2.src(tr)[:200])
+        body = tr.body
+        catches = True
+    if catches != passes_errors:
+        raise TranslateError('worker catches exceptions but the error list is not passed/re-raised (or vice versa)')
     loop = t2.only(body, '_threaded_kernel body')
     if not (isinstance(loop, ast.For) and t2.src(loop.iter) == 'ix' and isinstance(loop.target, ast.Name) and not loop.orelse):
         raise TranslateError('_threaded_kernel loop: ' + t2.src(loop))
@@ -131,6 +159,9 @@ Definition gen_split {{A : Type}} (k : nat) (l : list A) : list (list A) := arra
 {gen_step}
 {gen_serial}
 Definition gen_data_shape (Nu Nv : nat) : nat * nat := ({d0}, {d1}).
+(* a worker stops at its first failing kernel call and records the exception; after ALL workers are joined the
+   first recorded exception is raised again *)
+Definition gen_errors_reraised_after_join : bool := {'true' if reraise and catches else 'false'}.
 '''
     return txt
 
@@ -311,6 +342,9 @@ Definition owned (c : nat * nat * nat) : list (list (nat * nat)) :=
     # 3d. schedules in which workers START late (the OS need not run a new thread at once)
     _late_start(ctx)
 
+    # 3e. an integrand that raises: threaded assembly must raise like serial assembly does
+    _raising(ctx)
+
     # 4. oracle on real bases: threaded == serial bit for bit, all k
     _oracle_real(ctx)
 
@@ -441,6 +475,42 @@ def _late_start(ctx):
     finally:
         threading.Thread.run = orig_run
     ctx.extra['late_start_rules'] = [n for n, _ in rules]
+
+
+def _raising(ctx):
+    from skfem.assembly import BilinearForm
+    rng = ctx.rng
+
+    class Boom(RuntimeError):
+        pass
+    for Nu, Nv in [(2, 3), (3, 2), (1, 1), (3, 3)][:ctx.n(3, 4)]:
+        nt, nq = 2, 1
+        u = Stub(5, [[rng.randrange(5) for _ in range(nt)] for _ in range(Nu)], [1 + j for j in range(Nu)], nq)
+        v = Stub(6, [[rng.randrange(6) for _ in range(nt)] for _ in range(Nv)], [10 * (i + 1) for i in range(Nv)], nq)
+        bj, bi = rng.randrange(Nu), rng.randrange(Nv)
+
+        def form(uu, vv, w):
+            if int(uu.value[0, 0]) % 1000 == 1 + bj and int(vv.value[0, 0]) % 1000 == 10 * (bi + 1):
+                raise Boom('integrand fails for local pair (i=%d, j=%d)' % (bi, bj))
+            return uu * vv
+        try:
+            BilinearForm(form)._assemble(u, v)
+            serial_raised = False
+        except Boom:
+            serial_raised = True
+        for k in range(1, Nu * Nv + 3):
+            ctx.count(('raising', Nu, Nv, k, bi, bj), nontrivial=True)
+            try:
+                got = BilinearForm(form, nthreads=k)._assemble(u, v)
+                raised = False
+            except Boom:
+                raised = True
+            if raised != serial_raised:
+                ctx.fail(f'exception-lost-in-worker:Nu={Nu}:Nv={Nv}:k={k}',
+                         'the integrand raises for one local pair: serial assembly raises, threaded assembly returns a '
+                         '(silently incomplete) result',
+                         {'Nu': Nu, 'Nv': Nv, 'k': k, 'failing_pair_ij': [bi, bj], 'serial_raised': serial_raised,
+                          'threaded_raised': raised, 'threaded_data': None if raised else got[1].tolist()})
 
 
 def _multiset_perms(items):
